@@ -244,3 +244,7 @@ pub proof fn lemma_skipped_snoc(k: K, q: Map<c_int, Seq<Packet>>, fd: c_int, n: 
 
 // the blocking mode as a number (for the ghost log of first-packet receives)
 pub uninterp spec fn mode_code(m: BlockingMode) -> int;
+
+// the repository imports these two names from libc unqualified
+pub const EWOULDBLOCK: c_int = 11;
+pub const EAGAIN: c_int = 11;
